@@ -113,9 +113,9 @@ def base_mesh(name):
         return _prism(8)
     if name == "torus":
         return _torus()
-    if name == "grid260":
-        # 67 600 vertices: one more than 16-bit indices can address
-        n = 260
+    if name in ("grid260", "grid190"):
+        # 67 600 vertices: more than unsigned 16-bit indices can address; 36 100: more than signed 16-bit ones can
+        n = int(name[4:])
         x, y = np.meshgrid(np.arange(n, dtype=float), np.arange(n, dtype=float), indexing="ij")
         V = np.column_stack([x.ravel(), y.ravel(), np.sin(x.ravel() * 0.1) + np.cos(y.ravel() * 0.07)])
         idx = np.arange(n * n).reshape(n, n)
